@@ -163,6 +163,28 @@ Theorem C10_accepted_refuted_no_eligible : exists g es,
   elect 1000 4 [] [mkc 1%N 1%N 0 0] = [] /\ chain_run (chain_init g) es = None.
 Proof. exists [(1%N, 1000)], [gone_env; gone_env]. split; vm_compute; reflexivity. Qed.
 
+(* ---- convergence ---- *)
+
+(* C10_converges (partial).  From any state satisfying the chain invariant (every reachable state
+   does: C10_invariant) at height >= 1, if the candidate table, options, malicious set and
+   election stay the same and satisfy env_ok, then after 3 blocks — hence after the 5 of the
+   property text, and after any larger number — the pending validator set is exactly the
+   election (keys and powers), PROVIDED every member of the pending set still has a validator
+   record.  That proviso is the complement of trigger C10.member_without_record. *)
+Theorem C10_converges_partial : forall U cap ch e n, cap_ok U cap -> chain_inv U cap ch -> env_ok U cap e ->
+  1 <= ch_height ch ->
+  (forall a, a ∈ vkeys (ch_next ch) -> a ∈ map c_addr (e_cands e)) ->
+  exists ch', chain_run ch (replicate (3 + n) e) = Some ch' /\ ch_next ch' ≡ₚ pos_updates (e_el e).
+Proof. exact converges. Qed.
+Print Assumptions C10_converges_partial.
+
+Theorem C10_converges_five_blocks : forall U cap ch e, cap_ok U cap -> chain_inv U cap ch -> env_ok U cap e ->
+  1 <= ch_height ch ->
+  (forall a, a ∈ vkeys (ch_next ch) -> a ∈ map c_addr (e_cands e)) ->
+  exists ch', chain_run ch (replicate 5 e) = Some ch' /\ ch_next ch' ≡ₚ pos_updates (e_el e).
+Proof. exact converges5. Qed.
+Print Assumptions C10_converges_five_blocks.
+
 (* C10_converges is false of the faithful model: a validator that is elected once and whose record
    disappears before it shows up in LastCommitInfo is never purged (known finding
    C10.member_without_record): after 6 blocks of unchanged input the set still is not the election *)
@@ -181,8 +203,7 @@ Proof.
 Qed.
 
 (* ... while a member that still has a record (here below the minimum) is purged and the set
-   becomes exactly the election (the statement is not vacuous; the general convergence theorem
-   is not proved in this slice, see the report) *)
+   becomes exactly the election (the partial theorem is not vacuous) *)
 Definition quiet_env2 : env :=
   let cs := [mkc 2%N 2%N 1000 1000; mkc 3%N 3%N 900 900] in mke cs (mko 1000 4) [] false (elect 1000 4 [] cs).
 Example C10_converges_example : exists ch,
